@@ -213,6 +213,7 @@ pub fn gen_verdict_case(t: &mut Tape) -> VerdictCase {
 
 impl Prop for Verdict_ {
     type Case = VerdictCase;
+    crate::prog_shrink!();
     fn name(&self) -> String {
         "C06/verdict".into()
     }
@@ -243,6 +244,7 @@ impl Prop for Verdict_ {
 pub struct SharedPointer;
 impl Prop for SharedPointer {
     type Case = l2c::Case;
+    crate::prog_shrink!();
     fn name(&self) -> String {
         "C06/shared-pointer".into()
     }
@@ -334,6 +336,7 @@ impl Prop for SharedPointer {
 pub struct Accessor;
 impl Prop for Accessor {
     type Case = Case;
+    crate::prog_shrink!();
     fn name(&self) -> String {
         "C06/accessor".into()
     }
